@@ -119,11 +119,14 @@ def perturb_params(params, fold=1, lower_bound=None, upper_bound=None):
     """
     pnew = params * 2**(fold * (2*numpy.random.uniform(size=len(params))-1))
     if lower_bound is not None:
+        # Work on a copy, so the caller's list keeps its None entries.
+        lower_bound = list(lower_bound)
         for ii,bound in enumerate(lower_bound):
             if bound is None:
                 lower_bound[ii] = -numpy.inf
         pnew = numpy.maximum(pnew, 1.01*numpy.asarray(lower_bound))
     if upper_bound is not None:
+        upper_bound = list(upper_bound)
         for ii,bound in enumerate(upper_bound):
             if bound is None:
                 upper_bound[ii] = numpy.inf
